@@ -1,9 +1,121 @@
-import LLTD.Model.Block
-import LLTD.Spec.Block
+/-
+  C04 — Hello properties faithfully encode the interface's attributes.
+-/
+import LLTD.Lemmas.Obs
 
 namespace LLTD.C04
 open LLTD LLTD.Spec
 
-theorem placeholder_layout : X.sizeofDemux = 32 := by decide
+/-- value ranges the port API's C types impose on an attribute record -/
+structure CfgRange (c : Cfg) : Prop where
+  iftype : c.iftype < u32
+  speed  : c.speed < u32
+  rate   : c.rate < 65536
+  mode   : c.mode < 256
+  rssiLo : -128 ≤ c.rssi
+  rssiHi : c.rssi ≤ 127
+
+theorem unbe_be4 (v : Nat) (h : v < u32) : unbe (be 4 v) = v := unbe_be_of_lt 4 v (by unfold u32 at h; omega)
+theorem unbe_be2 (v : Nat) (h : v < 65536) : unbe (be 2 v) = v := unbe_be_of_lt 2 v (by omega)
+
+/-- signed values keep their sign: int8 → int32 two's complement → big-endian → decoded as int32 -/
+theorem rssi_roundtrip (r : Int) (hlo : -128 ≤ r) (hhi : r ≤ 127) : toInt32 (be 4 (i8ToU32 r)) = r := by
+  unfold toInt32 i8ToU32
+  by_cases hn : r < 0
+  · simp only [if_pos hn]
+    have hlt : 4294967296 - r.natAbs < 256 ^ 4 := by omega
+    rw [unbe_be_of_lt 4 _ hlt]
+    have : 4294967296 - r.natAbs ≥ 2147483648 := by omega
+    simp only [this, if_true]
+    omega
+  · simp only [if_neg hn]
+    have hlt : r.natAbs < 256 ^ 4 := by omega
+    rw [unbe_be_of_lt 4 _ hlt]
+    have : ¬ r.natAbs ≥ 2147483648 := by omega
+    simp only [this, if_false]
+    omega
+
+/-- the characteristics word carries the 16 flag bits in its upper half -/
+theorem characteristics_word (flags : Nat) : unbe (be 4 ((flags * 65536) % u32)) = (flags % 65536) * 65536 := by
+  have hlt : (flags * 65536) % u32 < 256 ^ 4 := by
+    have h : (flags * 65536) % u32 < u32 := Nat.mod_lt _ (by decide)
+    have e : (256 : Nat) ^ 4 = u32 := by decide
+    rw [e]; exact h
+  rw [unbe_be_of_lt 4 _ hlt]
+  have hu : u32 = 65536 * 65536 := by decide
+  rw [hu, Nat.mul_mod_mul_right]
+
+theorem qos_word : unbe (be 4 (((X.qosL2Fwd ||| X.qosPrioTag ||| X.qosVlan) * 65536) % u32)) = 0xE0000000 := by decide
+theorem qos_word' : unbe (be 4 (3758096384 % u32)) = 3758096384 := by decide
+
+theorem perf_word : unbe (be 8 1000000) = 1000000 := by decide
+
+/-- decoding the property list of the model's Hello yields exactly the interface's attributes — for every
+    attribute record in range, wired or wireless, every getter succeeding or failing independently -/
+theorem roundtrip (c : Cfg) (g : Glob) (hr : CfgRange c) : decodeAttrs (helloProps c g) = expectedAttrs c g := by
+  have hp := perf_word
+  have hch := characteristics_word c.flags
+  have hif : unbe (be 4 (if c.failIfType = true then 0 else c.iftype)) = if c.failIfType = true then 0 else c.iftype := by
+    split
+    · decide
+    · exact unbe_be4 _ hr.iftype
+  have hsp : unbe (be 4 (if c.failSpeed = true then 0 else c.speed)) = if c.failSpeed = true then 0 else c.speed := by
+    split
+    · decide
+    · exact unbe_be4 _ hr.speed
+  have hra : unbe (be 2 (if c.failRate = true then 0 else c.rate)) = if c.failRate = true then 0 else c.rate := by
+    split
+    · decide
+    · exact unbe_be2 _ hr.rate
+  have hrs : toInt32 (be 4 (i8ToU32 (if c.failRssi = true then 0 else c.rssi))) = if c.failRssi = true then 0 else c.rssi := by
+    split
+    · decide
+    · exact rssi_roundtrip _ hr.rssiLo hr.rssiHi
+  have hmo : unbe [c.mode] = c.mode := by simp [unbe]
+  unfold decodeAttrs expectedAttrs helloProps wifiProps tlvGet
+  by_cases hw : c.wifi = true <;> by_cases hb : c.failBssid = true <;>
+    simp [hw, hb, qos_word', hp, hch, hif, hsp, hra, hrs, hmo, Cfg.ourMac, zeros]
+
+/-- wireless properties appear only on wireless interfaces -/
+theorem wifi_gate (c : Cfg) (g : Glob) (hw : c.wifi = false) :
+    ∀ p ∈ helloProps c g, p.1 ≠ 4 ∧ p.1 ≠ 5 ∧ p.1 ≠ 6 ∧ p.1 ≠ 9 ∧ p.1 ≠ 13 := by
+  intro p hp
+  have hm : p.1 ∈ (helloProps c g).map (·.1) := List.mem_map.mpr ⟨p, hp, rfl⟩
+  rw [helloProps_types] at hm
+  unfold helloTypes at hm
+  simp [hw] at hm
+  omega
+
+/-- every multi-byte number of the property list is big-endian: the bridge from a whole Hello frame -/
+theorem hello_attrs (c : Cfg) (g : Glob) (gen tos : Nat) (cur app : Mac) (hc : CfgOk c) (hr : CfgRange c)
+    (h1 : cur.length = 6) (h2 : app.length = 6) :
+    (decodeHello (helloFrame c g gen tos cur app)).map (fun h => decodeAttrs h.tlvs) = some (expectedAttrs c g) := by
+  rw [decodeHello_helloFrame c g gen tos cur app hc h1 h2]
+  simp [roundtrip c g hr]
+
+/-- the property predicate holds of the model's reaction to every accepted Discover -/
+theorem bridge (c : Cfg) (g : Glob) (w : World) (st : St) (img : List Nat) (hc : CfgOk c) (hr : CfgRange c)
+    (hd : isDiscover img = true) (hacc : mapperMatches st (fRealSrc img) = true) (hm : (w.malloc c.mtuEff).2 = true) :
+    holdsC04Rx (obsOf c g img (parseFrameSt c g w st img).fx) = true := by
+  obtain ⟨hl, htos, hop⟩ := (isDiscover_iff img).mp hd
+  have h1 : (LLTD.fRealSrc img).length = 6 := slice_length _ _ _ (by simp; omega)
+  have h2 : (LLTD.fEthSrc img).length = 6 := slice_length _ _ _ (by simp; omega)
+  have hfx := (answerHello_fx c g w (preStep st img) img hc hl hm).1
+  rw [helloGen_preStep] at hfx
+  have hsends : sends (obsOf c g img (parseFrameSt c g w st img).fx).fx =
+      [helloFrame c g (LLTD.fDiscGen img) (LLTD.fTos img) (LLTD.fRealSrc img) (LLTD.fEthSrc img)] := by
+    rw [parseFrameSt_discover c g w st img htos hop, if_pos hacc]
+    unfold obsOf
+    split
+    · simp only [hfx]; rfl
+    · simp only [hfx]; rfl
+  unfold holdsC04Rx helloReplies
+  rw [hsends]
+  simp only [List.filterMap_cons, List.filterMap_nil, decodeHello_helloFrame c g _ _ _ _ hc h1 h2, List.all_cons, List.all_nil, Bool.and_true]
+  simp [roundtrip c g hr, obsOf]
+
+/-- non-vacuity: a Wi-Fi record with a negative signal strength -/
+example : CfgRange { wifi := true, rssi := -60, rate := 108, mode := 1, iftype := 71, speed := 540000 } :=
+  ⟨by decide, by decide, by decide, by decide, by decide, by decide⟩
 
 end LLTD.C04
